@@ -1,0 +1,69 @@
+//! Verification seams. This module only exists when the crate is built with
+//! `--cfg chess_verif`; nothing here is compiled into the shipped engine. Every
+//! slot is inert (the shipped behaviour) until a test harness installs
+//! something into it.
+
+use std::sync::atomic::{AtomicUsize, Ordering};
+
+use crate::board::Board;
+
+/// `ChessMove::apply` has just returned.
+pub const BOARD_EVENT_APPLIED: u8 = 0;
+/// `ChessMove::undo` has just returned.
+pub const BOARD_EVENT_UNDONE: u8 = 1;
+
+/// Observer called with the board as it is right after every `ChessMove::apply`
+/// / `ChessMove::undo` (on whichever thread performed it), the event kind and
+/// whether the operation returned `Ok`.
+pub type BoardObserver = fn(&Board, u8, bool);
+
+/// Decides a run-time random draw: given the number of alternatives, returns
+/// the index to use, or `None` to keep the engine's own random draw.
+pub type Chooser = fn(usize) -> Option<usize>;
+
+static LRU_CAPACITY: AtomicUsize = AtomicUsize::new(0);
+static BOARD_OBSERVER: AtomicUsize = AtomicUsize::new(0);
+static CHOOSER: AtomicUsize = AtomicUsize::new(0);
+
+/// Capacity knob for the move generator's LRU cache. `0` restores the shipped
+/// capacity.
+pub fn set_lru_capacity(capacity: usize) {
+    LRU_CAPACITY.store(capacity, Ordering::SeqCst);
+}
+
+pub fn lru_capacity() -> Option<usize> {
+    match LRU_CAPACITY.load(Ordering::SeqCst) {
+        0 => None,
+        n => Some(n),
+    }
+}
+
+pub fn set_board_observer(observer: Option<BoardObserver>) {
+    BOARD_OBSERVER.store(observer.map_or(0, |f| f as usize), Ordering::SeqCst);
+}
+
+#[inline]
+pub fn on_board_state(board: &Board, event: u8, ok: bool) {
+    let raw = BOARD_OBSERVER.load(Ordering::Relaxed);
+    if raw != 0 {
+        // SAFETY: only `set_board_observer` writes this slot, always from a `BoardObserver`.
+        let observer: BoardObserver = unsafe { std::mem::transmute::<usize, BoardObserver>(raw) };
+        observer(board, event, ok);
+    }
+}
+
+pub fn set_chooser(chooser: Option<Chooser>) {
+    CHOOSER.store(chooser.map_or(0, |f| f as usize), Ordering::SeqCst);
+}
+
+/// Returns the index a harness wants for a draw among `len` alternatives, if
+/// a chooser is installed and has an opinion.
+pub fn choose(len: usize) -> Option<usize> {
+    let raw = CHOOSER.load(Ordering::Relaxed);
+    if raw == 0 || len == 0 {
+        return None;
+    }
+    // SAFETY: only `set_chooser` writes this slot, always from a `Chooser`.
+    let chooser: Chooser = unsafe { std::mem::transmute::<usize, Chooser>(raw) };
+    chooser(len).map(|i| i % len)
+}
